@@ -97,8 +97,9 @@ func (pxy *UDPProxy) InWorkConn(conn net.Conn, _ *msg.StartWorkConn) {
 	var rwc io.ReadWriteCloser = conn
 	var err error
 	if pxy.limiter != nil {
-		rwc = libio.WrapReadWriteCloser(limit.NewReader(conn, pxy.limiter), limit.NewWriter(conn, pxy.limiter), func() error {
-			return conn.Close()
+		inner := conn
+		rwc = libio.WrapReadWriteCloser(limit.NewReader(inner, pxy.limiter), limit.NewWriter(inner, pxy.limiter), func() error {
+			return inner.Close()
 		})
 	}
 	if pxy.cfg.Transport.UseEncryption {
